@@ -228,10 +228,13 @@ fn run_tests<K: Kind>(case: &UniformCase, seed: u64) -> Result<Vec<(String, f64,
             res.push((format!("sign:comp{i}"), z, p));
         }
     }
-    // pairwise independence of consecutive full-length marginals
-    for w in all_marg.windows(2) {
-        let (x2, p) = chi2_grid_p(&w[0].1, &w[1].1, 8);
-        res.push((format!("chi2-8x8:{}x{}", w[0].0, w[1].0), x2, p));
+    // pairwise independence of all full-length marginals (every pair, so that a dependence
+    // between coordinates that are not neighbours is seen too)
+    for i in 0..all_marg.len() {
+        for j in i + 1..all_marg.len() {
+            let (x2, p) = chi2_grid_p(&all_marg[i].1, &all_marg[j].1, 8);
+            res.push((format!("chi2-8x8:{}x{}", all_marg[i].0, all_marg[j].0), x2, p));
+        }
     }
     Ok(res)
 }
@@ -299,13 +302,14 @@ impl Prop for C14 {
     const ID: &'static str = "C14";
     const PART: &'static str = "goodness-of-fit";
     const MAX_SHRINK_ITERS: u32 = 8;
-    const RULE: &'static str = "proptest-generated bound settings (boxes of 1-3 dims incl. 1e-3 and 1e4 scales, SO2 intervals, SO3 full and cones of radius [0.3, pi), compounds, SE2/SE3) x sampler seeds; N = 2e5 draws per setting (quick) / 1e6 (thorough). Per setting: Kolmogorov-Smirnov of every marginal against its exact CDF (coordinate, angle, rotation angle (theta - sin theta)/(tmax - sin tmax) relative to the cone centre, axis z-component, axis azimuth), sign symmetry of the quaternion, chi-square on an 8x8 grid for consecutive marginals (independence). Each test at alpha = 1e-9 and a failure must repeat on a second independent seed. One case = one setting; counters give the number of statistical tests and draws. Cannot see biases below about 1%. Non-trivial = setting with non-default bounds.";
+    const RULE: &'static str = "proptest-generated bound settings (boxes of 1-3 dims incl. 1e-3 and 1e4 scales, SO2 intervals, SO3 full and cones of radius [0.3, pi), compounds, SE2/SE3) x sampler seeds; N = 2e5 draws per setting (quick) / 1e6 (thorough). Per setting: Kolmogorov-Smirnov of every marginal against its exact CDF (coordinate, angle, rotation angle (theta - sin theta)/(tmax - sin tmax) relative to the cone centre, axis z-component, axis azimuth), sign symmetry of the quaternion, chi-square on an 8x8 grid for every pair of marginals (independence); 12 % of the settings with an SO3 part use a narrow cone (0.12-0.3 rad) with N = 2e4. Each test at alpha = 1e-9 and a failure must repeat on a second independent seed. One case = one setting; counters give the number of statistical tests and draws. Cannot see biases below about 1%. Non-trivial = setting with non-default bounds.";
     fn random_cases(tier: Tier) -> usize {
         tier.pick(96, 360)
     }
     fn gen(ch: &mut Ch, tier: Tier) -> UniformCase {
         let kind = ch.pick(&ALL_KINDS);
         let mut space = gen_space(ch, kind, BoundsMode::Bounded, false);
+        let _ = &mut space;
         // requested SO2 intervals that stick out of [-pi, pi] (the constructor clamps them)
         for c in space.comps.iter_mut() {
             if let Comp::SO2 { bounds } = c {
@@ -324,10 +328,23 @@ impl Prop for C14 {
             space.weights.truncate(3);
             space.fracs.truncate(3);
         }
+        let mut n = tier.pick(200_000, 1_000_000);
+        // narrow cones (0.12-0.3 rad): the rejection sampler needs 1e3-2e4 tries per draw, so
+        // they get fewer draws (KS critical distance 0.023 at N = 2e4, alpha = 1e-9)
+        if ch.prob(0.12) {
+            for c in space.comps.iter_mut() {
+                if let Comp::SO3 { bounds } = c {
+                    let centre = bounds.map(|b| b.0).unwrap_or([0.0, 0.0, 0.0, 1.0]);
+                    *bounds = Some((centre, ch.range(0.12, 0.3)));
+                    n = tier.pick(20_000, 60_000);
+                    break;
+                }
+            }
+        }
         UniformCase {
             space,
             seed: ch.seed(),
-            n: tier.pick(200_000, 1_000_000),
+            n,
         }
     }
     fn check(case: &UniformCase, ctx: &mut Ctx) {
